@@ -640,6 +640,7 @@ def run_families(chk, fams, tie):
 # ----------------------------------------------------------------------------------------------
 
 PROG_SIG = dict(METHODSET_SIG)
+SIG_CTOR = "C09 dispatch method-named-constructor-clobbers-dynamic-type"
 SIG_RECV = "C09 dispatch struct-value-receiver-shared-through-interface-or-method-value"
 PROG_SIG.update({"memo": SIG_MEMO, "canon-embedded": SIG_EMB, "canon-tag": SIG_TAG, "cmp": SIG_CMP, "recvcopy": SIG_RECV})
 
@@ -1024,7 +1025,9 @@ def run_programs(chk, tier):
             if differing == []:
                 continue
             sig = None
-            if differing is None and mode in PROG_SIG and js[1].startswith("jserror:TypeError") and "is not a function" in js[1]:
+            ctor_method = mode == "protoname" and ") constructor() int {" in srcs
+            if differing is None and mode in PROG_SIG and js[1].startswith("jserror:TypeError") and (
+                    "is not a function" in js[1] or ctor_method):
                 # an assertion that wrongly succeeded: the call of the missing method crashes. The line being printed must
                 # belong to a type that contains the injected construct.
                 m = min(len(js[0]), len(nat[0]))
@@ -1032,7 +1035,7 @@ def run_programs(chk, tier):
                 if len(js[0]) < len(nat[0]):
                     labels.append(nat[0][len(js[0])].split(" ")[0])
                 if labels and all(l in tainted for l in labels):
-                    sig = PROG_SIG[mode]
+                    sig = SIG_CTOR if (ctor_method and "is not a function" not in js[1]) else PROG_SIG[mode]
             elif differing is not None and mode == "recvcopy":
                 sig = SIG_RECV
             elif differing is not None and mode in PROG_SIG and all(a.split(" ")[0] in tainted for a, b in differing):
